@@ -246,9 +246,10 @@ DRIVER_TABLES = T("Proofs.Bridge.Tables", "BLDFM.Bridge", ["table_driver_run_bld
                                                            "table_driver_worker_timeseries", "table_driver_run_bldfm_parallel", "table_driver_make_cache"], "bridge")
 REGISTRY["C14"]["theorems"] += DRIVER_TABLES
 REGISTRY["C14"]["kernel_groups"].append("Tables")
-for _p in ("C11", "C06", "C03", "C02"):
+for _p in ("C01", "C02", "C03", "C04", "C05", "C06", "C07", "C10", "C11"):
     REGISTRY[_p]["theorems"] += T("Proofs.Bridge.Tables", "BLDFM.Bridge", ["table_solverPlumbing"], "bridge")
-    REGISTRY[_p]["kernel_groups"].append("Tables")
+    if "Tables" not in REGISTRY[_p]["kernel_groups"]:
+        REGISTRY[_p]["kernel_groups"].append("Tables")
 for _p in ("C08", "C17"):
     REGISTRY[_p]["theorems"] += T("Proofs.Bridge.Tables", "BLDFM.Bridge", ["tower_local_xy_table"], "bridge")
     REGISTRY[_p]["kernel_groups"].append("Tables")
@@ -271,3 +272,5 @@ REGISTRY["C04"]["theorems"] += T("Proofs.C04b", "BLDFM.C04", ["conc_coef", "solv
 REGISTRY["C04"]["partial_clauses"] = ["float rounding (linearity is exact over the reals; the oracle tolerates 1e-10 relative in double, 3e-5 in single)"]
 REGISTRY["C02"]["theorems"] += T("Proofs.C02c", "BLDFM.C02", ["recip_core", "bg_term", "footprint_reciprocity_conc"]) + T("Proofs.C04b", "BLDFM.C04", ["conc_coef"])
 REGISTRY["C02"]["partial_clauses"] = ["single-precision storage rounding (both reciprocity identities are theorems through the whole model pipeline over exact arithmetic)"]
+REGISTRY["C09"]["theorems"] += T("Proofs.C09b", "BLDFM.C09", ["psi_unstable_eq", "Fxi_deriv", "psi_deriv_unstable", "psi_deriv_stable", "psi_continuousAt_zero", "phi_continuousAt_zero"])
+REGISTRY["C09"]["partial_clauses"] = [c for c in REGISTRY["C09"]["partial_clauses"] if not c.startswith("psi' =")]
